@@ -643,13 +643,21 @@ Error Message: {}
                     m.add_string(keyblob)
                     self.transport._send_message(m)
                     return
-                sig = Message(m.get_binary())
+                sig_bytes = m.get_binary()
+                sig = Message(sig_bytes)
                 blob = self._get_session_blob(
                     key, service, username, algorithm
                 )
-                if not key.verify_ssh_sig(blob, sig):
-                    self._log(INFO, "Auth rejected: invalid signature")
+                # the signature must use the algorithm the request declares
+                try:
+                    self.transport._check_sig_algorithm(algorithm, sig_bytes)
+                except SSHException as e:
+                    self._log(INFO, "Auth rejected: {}".format(e))
                     result = AUTH_FAILED
+                else:
+                    if not key.verify_ssh_sig(blob, sig):
+                        self._log(INFO, "Auth rejected: invalid signature")
+                        result = AUTH_FAILED
         elif method == "keyboard-interactive":
             submethods = m.get_string()
             result = self.transport.server_object.check_auth_interactive(
